@@ -89,8 +89,11 @@ def check_split(cx: Cx, ob: Ob) -> None:
     if not rets:
         ob.undecide("_split has no value return")
         return
+    from ..rules import namedtuple_as_tuple
+
     for t, ctx in rets:
         line = ctx.path.out[2]
+        t = namedtuple_as_tuple(cx, t)
         if op(t) != "tuple" or len(t[1]) != 2:
             ob.undecide(f"_split returns `{show(t)[:60]}`")
             continue
